@@ -70,7 +70,10 @@ struct IdCase {
     /// (signer, Some(doc) | None = other bytes)
     sigs: Vec<(usize, Option<usize>)>,
     vtable: Vec<(usize, usize, usize)>,
+    /// order of the real evaluation with the `concurrent` flags (reported in the OUTPUT only)
     order: Vec<(usize, bool)>,
+    /// `g=<ranks>/<sigbits>` (computed by the real code) or `?`
+    g: String,
     ops: Vec<IdOp>,
 }
 
@@ -132,7 +135,7 @@ fn refs_of(a: &IdAct) -> Vec<u64> {
 
 fn parse(input: &str) -> Option<IdCase> {
     let toks: Vec<&str> = input.split(' ').collect();
-    if toks.len() < 7 || toks[0] != "id" {
+    if toks.len() < 7 || (toks[0] != "idg" && toks[0] != "id") {
         return None;
     }
     let repo_doc = nat(toks[1])? as usize;
@@ -192,13 +195,13 @@ fn parse(input: &str) -> Option<IdCase> {
         }
         ops.push(IdOp { author, ts, tips, actions });
     }
-    Some(IdCase { repo_doc, docs, sigs, vtable: vec![], order: vec![], ops })
+    Some(IdCase { repo_doc, docs, sigs, vtable: vec![], order: vec![], g: "?".into(), ops })
 }
 
 fn render(c: &IdCase) -> String {
     let l = |v: &[usize]| show_list(&v.iter().map(|x| x.to_string()).collect::<Vec<_>>(), ",");
     let mut s = format!(
-        "id {} {} {} {} {}",
+        "idg {} {} {} {} {}",
         c.repo_doc,
         c.docs.iter().map(|d| l(d)).collect::<Vec<_>>().join(";"),
         c.sigs
@@ -207,7 +210,7 @@ fn render(c: &IdCase) -> String {
             .collect::<Vec<_>>()
             .join(";"),
         show_list(&c.vtable.iter().map(|(k, s, b)| format!("{k}.{s}.{b}")).collect::<Vec<_>>(), ","),
-        show_list(&c.order.iter().map(|(i, c)| format!("{i}.{}", *c as u8)).collect::<Vec<_>>(), ","),
+        c.g,
     );
     for o in &c.ops {
         s.push_str(&format!(
@@ -375,6 +378,7 @@ fn run_case(w: &mut World, repos: &mut Repos, case: &mut IdCase) -> Result<Run, 
         repo.update(&key, &type_name, &object, &ids[t]).map_err(|e| e.to_string())?;
         holders.push(key);
     }
+    case.g = graph_token(repo, &ids);
     let res = catch(|| cob::get::<Traced<Identity>, _>(repo, &type_name, &object));
     for h in &holders {
         let _ = cob::object::Storage::remove(repo, h, &type_name, &object);
@@ -403,7 +407,8 @@ fn run_case(w: &mut World, repos: &mut Repos, case: &mut IdCase) -> Result<Run, 
     }
     case.order = order;
     let out = format!(
-        "r={};{}",
+        "o={};r={};{}",
+        show_list(&case.order.iter().map(|(i, c)| format!("{i}.{}", *c as u8)).collect::<Vec<_>>(), ","),
         if res_s.is_empty() { "-".into() } else { res_s },
         show_identity(w, &ids, &blobs, &sigs, &traced.inner)?
     );
@@ -796,7 +801,7 @@ fn gen_case(rng: &mut Rng) -> String {
         dag.push(&tips, anc, suspect);
         ops.push(IdOp { author, ts, tips, actions });
     }
-    render(&IdCase { repo_doc: 0, docs, sigs, vtable: vec![], order: vec![], ops })
+    render(&IdCase { repo_doc: 0, docs, sigs, vtable: vec![], order: vec![], g: "?".into(), ops })
 }
 
 fn main() {
